@@ -67,11 +67,13 @@ impl<'i> super::ExecutableInstruction<'i> for Next<'i> {
 
         let result = next_instr.execute(exec_ctx, trace_ctx);
         exec_ctx.scalars.meet_next_after();
-        result?;
 
-        // get the same fold state again because of borrow checker
+        // get the same fold state again because of borrow checker;
+        // the iterator is moved back also when the nested iteration failed, so that
+        // an xor of this iteration sees this iteration's element
         let fold_state = exec_ctx.scalars.get_iterable_mut(iterator_name)?;
         fold_state.iterable.prev();
+        result?;
         maybe_meet_back_iterator(self, fold_state, trace_ctx)?;
 
         Ok(())
